@@ -273,7 +273,7 @@ static int cookie_verify_cb(SSL *ssl, const unsigned char *cookie, unsigned int 
 
     gettimeofday(&now, NULL);
     cookie_time = *(time_t *)cookie;
-    if (now.tv_sec - cookie_time > 5) {
+    if (cookie_time < now.tv_sec - 5) {
         debug(DBG_DBG, "cookie_verify_cb: cookie invalid or older than 5s. ignoring.");
         return 0;
     }
